@@ -178,6 +178,10 @@ type Replay struct {
 	RepoHead  string    `json:"repo_head"`
 	RepoDiff  string    `json:"repo_diff_hash"`
 	Minimised bool      `json:"minimised"`
+	// Flaky: the violation showed in some executions of this scenario only (the
+	// code under test is nondeterministic by itself); replay executes the file
+	// several times
+	Flaky bool `json:"flaky,omitempty"`
 	Steps     []string  `json:"decoded_trace,omitempty"`
 	Scenario  *Scenario `json:"scenario"`
 }
